@@ -95,13 +95,15 @@ def step (s : St) : Op → St × Ret
   | .itSet v => itrSet s v
   | .itRm => itrRemove s
 
-/-- ops that change the container other than through the iterator -/
+/-- calls that invalidate a live iterator: they free or relink nodes the iterator may point into.
+`enqueue` is not among them: it only appends behind the last node, an iterator keeps its place and
+will reach the new element. -/
 def Op.mutates : Op → Bool
-  | .enq _ | .deq | .rm | .clear => true
+  | .deq | .rm | .clear => true
   | _ => false
 
 /-- API precondition (iterator invalidation): while an iterator is live the container is modified
-only through it.  `free` is how an unfinished iterator is abandoned. -/
+only through it or by `enqueue`.  `free` is how an unfinished iterator is abandoned. -/
 def okOp (s : St) (o : Op) : Bool := !(o.mutates && s.itr.isSome)
 
 def run (s : St) (ops : List Op) : St := ops.foldl (fun s o => (step s o).1) s
